@@ -609,10 +609,11 @@ __find_zrng(const struct zif_s z[static 1U], int32_t t, int min, int max)
 		/* assume the first offset has always been there */
 		res.next = res.prev;
 	} else if (UNLIKELY(trno < 0)) {
-		/* special case where no transitions are recorded */
+		/* before the first transition, or the special case
+		 * where no transitions are recorded at all */
 		res.trno = 0U;
 		res.prev = INT_MIN;
-		res.next = INT_MAX;
+		res.next = zif_ntrans(z) ? zif_trans(z, 0) : INT_MAX;
 	} else {
 		res.trno = (uint8_t)trno;
 		if (LIKELY(trno + 1U < zif_ntrans(z))) {
@@ -654,6 +655,10 @@ __offs(struct zif_s z[static 1U], int32_t t)
 	if (LIKELY(t >= z->cache.prev && t < z->cache.next)) {
 		/* use the cached offset */
 		return z->cache.offs;
+	} else if (UNLIKELY(z->cache.prev >= z->cache.next)) {
+		/* nothing cached yet, there is no range to start from */
+		min = 0;
+		max = zif_ntrans(z);
 	} else if (t >= z->cache.next) {
 		min = z->cache.trno + 1;
 		max = zif_ntrans(z);
